@@ -274,6 +274,7 @@ def parse_types(fmt):
 LAYER_ROUTES = {
     "cached_layer": {"op": "cached", "name": "L", "build": True, "launch": False, "mtype": "typed", "restored": {"action": "keep", "cause": "c"}, "invalid": {"action": "delete", "cause": "i"}},
     "uncached_layer": {"op": "uncached", "name": "L", "build": True, "launch": False},
+    "write_metadata": {"op": "write_metadata", "name": "L", "metadata": {"t": [["k", {"s": "v"}]]}},
     "handle_layer": {"op": "handle", "name": "L", "impl": "v1", "types": {"launch": True, "build": False, "cache": True}, "strategy": "keep", "migrate": {"action": "recreate", "metadata_value": "m"},
                      "create": {"metadata_value": "n", "env": None, "exec_d": [], "sboms": [], "write_files": [], "delete_files": []},
                      "update": {"metadata_value": "n", "env": None, "exec_d": [], "sboms": [], "write_files": [], "delete_files": []}},
@@ -302,6 +303,16 @@ def layer_api_routes(lmon, work, idx, valid_text, mtexts, sh):
                 with open(os.path.join(root, "layers", L.rsplit(".", 1)[0] + ".toml"), "w") as f:
                     f.write('[types]\ncache = true\n\n[metadata]\nversion = "sibling"\n')
             lmon.call({"op": "init", "layers_dir": os.path.join(root, "layers"), "app_dir": root, "bp_dir": root})
+            if route == "write_metadata":
+                # the handle is obtained while the file is a plain valid one; the document under test is what the file holds when
+                # LayerRef::write_metadata re-reads it (to keep the [types] table)
+                with open(os.path.join(root, "layers", L + ".toml"), "w") as f:
+                    f.write('[metadata]\nversion = "1"\n')
+                r0 = lmon.call(dict(LAYER_ROUTES["cached_layer"], name=L))
+                if "err" in r0:
+                    raise vp.Broken("layer-api write_metadata route: obtaining the handle failed: %r" % (r0,))
+                with open(os.path.join(root, "layers", L + ".toml"), "w") as f:
+                    f.write(text)
             rep = lmon.call(req)
             sh.evaluations += 1
             case = {"format": "layer_toml", "as": route, "kind": kind, "where": where, "text": text, "route": "layer-api"}
